@@ -34,7 +34,7 @@ RULE = (
     'Non-trivial = the history has a continue of an existing checkpoint or a rejected task; distinct = distinct event-log '
     'digest.'
 )
-BUDGET = {'quick': (15000, 55), 'thorough': (1_000_000, 600)}
+BUDGET = {'quick': (60000, 55), 'thorough': (1_000_000, 600)}
 COMPONENTS = {
     'real': ['plumpy.process_comms.ProcessLauncher, create_launch_body / create_continue_body / create_create_body, '
              'RemoteProcessController, RemoteProcessThreadController', 'plumpy.communications.LoopCommunicator / '
